@@ -179,9 +179,10 @@ def check_c04(tier, seed, wd):
         if ci == 0: legacy, n, kind, lvl = True, 8 * MB + 1, 'random', '-1'
         if ci == 1: legacy, n, kind, lvl = False, 4 * MB + 1, 'random', '-1'
         if ci == 2: legacy, n, kind, lvl = True, 8 * MB - 40000, 'random', '-9'
+        if 3 <= ci <= 8: legacy, n, lvl = True, [0, 1, 13, 1000, 70000, 250000][ci - 3], rng.choice(['-1', '--fast=3', '-1'])   # small legacy archives: compared byte for byte with Model/Legacy.lean
         content = gen_content(rng, n, kind)
         opts = [lvl]; want_bsid = 0; want_indep = 2; want_cs = 2; want_cc = 2; use_dict = False
-        if legacy: opts = ['-l'] + ([lvl] if lvl in ('-1', '-9', '-3') else [])
+        if legacy: opts = ['-l'] + ([lvl] if lvl in ('-1', '-9', '-3', '--fast=3') else [])
         else:
             b = rng.choice(blocks); d = rng.choice(deps)
             if b: opts.append(b)
@@ -206,7 +207,10 @@ def check_c04(tier, seed, wd):
         else:
             rc, out, err = run(comp_exe, opts + ['-f', src, arch]); archive = open(arch, 'rb').read() if os.path.exists(arch) else b''
         ctx.calls += 1; ctx.stat('compress_runs'); ctx.stat('legacy' if legacy else 'lz4frame'); ctx.stat('pipe' if pipe else 'file')
-        recargs = (7, [content, archive, dictdata if use_dict else b'', 1 if legacy else 0, want_bsid, want_indep, want_cs, want_cc])
+        lvlnum = {'--best': 12}.get(lvl, None)
+        if lvlnum is None: lvlnum = -int(lvl.split('=')[1]) if lvl.startswith('--fast') else int(lvl[1:])
+        if legacy and lvl not in opts: lvlnum = 1      # `lz4 -l` alone: default level 1
+        recargs = (7, [content, archive, dictdata if use_dict else b'', 1 if legacy else 0, want_bsid, want_indep, want_cs, want_cc, lvlnum])
         if rc != 0: ctx.fail('compress_exit_nonzero', 'opts=%s n=%d rc=%d %s' % (opts, n, rc, err[-200:]), recargs); continue
         ctx.rec.write(*recargs)
         write_file(arch, archive)
@@ -460,6 +464,9 @@ def check_c13(tier, seed, wd):
     files = {}
     for name, n in (('c4p', 13 * MB + 200000), ('c2x', 8 * MB), ('c1p', 4 * MB + 1), ('c5', 17 * MB + 5)):
         data = gen_content(rng, n, 'lz' if name != 'c2x' else 'text'); p = os.path.join(wd, name + '.dat'); write_file(p, data); files[name] = (p, data)
+    # decoded data that ENDS IN ZEROS (the last thing the sparse writer does is pending skips): what remains to be written when the pipelines wind down
+    for name, n, nz in (('z1', 9 * MB + 77, 3 * MB), ('z2', 5 * MB, 100000)):
+        data = gen_content(rng, n - nz, 'lz') + bytes(nz); p = os.path.join(wd, name + '.dat'); write_file(p, data); files[name] = (p, data)
     refs = {}
     def ref(name, opts):
         key = (name, tuple(opts))
@@ -469,11 +476,13 @@ def check_c13(tier, seed, wd):
             refs[key] = out if rc == 0 else None
         return refs[key]
     nruns = 160 if ctx.thorough else 36
-    for i in range(nruns):
-        name = rng.choice(['c4p', 'c2x', 'c1p', 'c5'] if i % 3 else ['c4p', 'c5'])
+    pinned = [('dl', 'z1', 'random', 2), ('dl', 'z1', 'lifo', 3), ('dl', 'z2', 'fifo', 2), ('d', 'z1', 'random', 4), ('d', 'z2', 'starve1', 2), ('dl', 'z1', 'starve0', 1), ('dl', 'z2', 'starve2', 4), ('d', 'z1', 'lifo', 2)]
+    for i in range(nruns + len(pinned)):
+        name = rng.choice(['c4p', 'c2x', 'c1p', 'c5', 'z1', 'z2'] if i % 3 else ['c4p', 'c5', 'z1'])
         policy = rng.choice(['random', 'random', 'lifo', 'fifo', 'starve1', 'starve2', 'starve0'])
         workers = rng.choice([1, 2, 3, 4, 8])
         op = rng.choice(['c', 'c', 'cl', 'd', 'dl', 'cBD'])
+        if i >= nruns: op, name, policy, workers = pinned[i - nruns]
         env = {'VS_SEED': str(seed * 1000 + i), 'VS_POLICY': policy, 'VS_SPURIOUS': str(rng.choice([0, 0, 10, 50]))}
         path, data = files[name]
         outp = os.path.join(wd, 'sched.out')
